@@ -1,6 +1,7 @@
 package checks
 
 import (
+	"context"
 	"strconv"
 	"unicode/utf8"
 
@@ -160,6 +161,47 @@ func evalC04(c *Ctx, cs *Case) {
 		if spellable {
 			o := OutputMD(doc, encOpt[enc])
 			check("OutputFromMarkdown", enc, o.Out, o, merged)
+		}
+		// massive mode (several roots): same documents / lines, in any order of roots
+		if spellable && len(f) >= 2 && enc != "toml" {
+			cs.Entry = "OutputFromMarkdown[" + enc + ",massive]"
+			// heading roots in massive mode are C10's business (known finding there): bullet roots here
+			doc := gen.Spell(f, gen.Spelling{Unit: "  ", Bullet: 3, FinalNL: true, Seed: cs.Seed})
+			cs.SetDoc(doc)
+			c.Rejournal(cs)
+			o := OutputMD(doc, encOpt[enc], gtree.WithMassive(context.Background()))
+			c.Eval(gen.HashString(fkey+"\x00"+cs.Entry), nontrivial)
+			c.SetAdd("entries", cs.Entry)
+			det := map[string]any{"forest": fkey, "doc": doc, "out": trunc(string(o.Out), 2000), "err": errStr(o.Err)}
+			var got model.Forest
+			var derr error
+			if enc == "json" {
+				got, derr = DecodeJSONLines(o.Out)
+			} else {
+				got, derr = DecodeYAMLDocs(o.Out)
+			}
+			switch {
+			case o.Panic != nil:
+				c.Violation(cs, "panic", PanicSig(o.Panic, o.Stack), det)
+			case o.Err != nil:
+				c.Violation(cs, "encode.error", enc, det)
+			case derr != nil:
+				det["decode_err"] = derr.Error()
+				c.Violation(cs, "decode.rejected", enc, det)
+			default:
+				var a, b []string
+				for _, r := range got {
+					a = append(a, model.Forest{r}.String())
+				}
+				for _, r := range merged {
+					b = append(b, model.Forest{r}.String())
+				}
+				if !sameMultiset(a, b) {
+					det["decoded"] = got.String()
+					c.Violation(cs, "decode.differs", enc, det)
+				}
+			}
+			cs.Entry, cs.Doc, cs.DocText = "", nil, ""
 		}
 		// From-Root: one call per root
 		for ri, root := range f {
